@@ -99,6 +99,14 @@ theorem inc_day {t : Int} (h2 : hour Z t = 0) (h3 : minute Z t = 0) (h4 : second
     rw [hour_fixed, hg]; omega
   rw [dayStart_hour0 hh, hg]; omega
 
+theorem inc_day' {t : Int} (h2 : hour Z t = 0) (h3 : minute Z t = 0) (h4 : second Z t = 0) :
+    dayInc Z t + off = (dayNum Z t + 1) * 86400 := by
+  have h := inc_day h2 h3 h4
+  have hlt : t < dayStart Z (addDate Z t 0 0 1) := by
+    rw [hour_fixed] at h2; rw [minute_fixed] at h3; rw [second_fixed] at h4
+    rw [dayNum_fixed] at h; omega
+  simp only [dayInc, hlt, if_true]; exact h
+
 theorem reset_hour (t : Int) :
     goDate Z (year Z t) (month Z t) (day Z t) (hour Z t) 0 0 + off
       = (t + off) - (t + off) % 3600 := by
@@ -225,10 +233,10 @@ theorem day_rule (t0 tin : Int) (t : Int) (a : Bool) (hp : PinD s off t0 tin t a
   generalize (if a then t else goDate Z (year Z t) (month Z t) (day Z t) 0 0 0) = t1 at h1
   have hD1 : dayNum Z t1 = dayNum Z t := by
     rw [dayNum_fixed] at h1 ⊢; rw [dayNum_fixed]; omega
-  have h2 := inc_day (t := t1) (off := off) (by rw [hour_fixed]; omega) (by rw [minute_fixed]; omega)
+  have h2 := inc_day' (t := t1) (off := off) (by rw [hour_fixed]; omega) (by rw [minute_fixed]; omega)
     (by rw [second_fixed]; omega)
   rw [hD1] at h2
-  generalize dayStart Z (addDate Z t1 0 0 1) = t2 at h2
+  generalize dayInc Z t1 = t2 at h2
   have hD2 : dayNum Z t2 = dayNum Z t + 1 := by rw [dayNum_fixed] at h2 ⊢; rw [dayNum_fixed]; omega
   have hh2 : hour Z t2 = 0 := by rw [hour_fixed]; omega
   have hmi2 : minute Z t2 = 0 := by rw [minute_fixed]; omega
